@@ -1434,6 +1434,66 @@ Proof.
   eapply SR_detect; try eassumption. intros _. exact TS.
 Qed.
 
+(* ---------- B4, alternative without premise: the exact clause for the local instance ---------- *)
+(* Same checker as NodeSpec.c07_detection, except that at a local tick the tag taken for the LOCAL instance is what
+   SupvisorsTimes.update really stores: the tick's counter, or 0 when this counter is lower than the stored one
+   (r = the remote counter of the row before the event). With it the detection clause holds for every event, with
+   no premise on the local counter; both checkers coincide when the local counter does not go backwards. *)
+Definition detect_body_exact (me inactivity : Z) (auto_fence : bool) (e : event) (j s r c s' : Z) : bool :=
+  let active := Z.eqb s 1 || Z.eqb s 2 || Z.eqb s 3 || Z.eqb s 4 in
+  match e with
+  | LocalTick cnt _ _ =>
+      let cj := if Z.eqb j me then (if Z.ltb cnt r then 0 else cnt) else c in
+      if active && Z.ltb inactivity (cnt - cj) then (Z.eqb s' 0 || Z.eqb s' 5)
+      else (negb (Z.eqb s 3) || Z.eqb s' 3)
+  | InstFailure og _ =>
+      negb (Z.eqb s 3) || Z.eqb s' 3
+      || (match (if og_addr_ok og then og_resolved og else None) with Some k => Z.eqb k j | None => false end)
+  | _ => negb (Z.eqb s 3) || Z.eqb s' 3
+  end
+  && (Z.eqb s 5 || negb (Z.eqb s' 5) || auto_fence
+      || match e with Auth _ _ _ _ => true | _ => false end).
+
+Definition c07_detection_exact (me inactivity : Z) (auto_fence : bool) (e : event)
+                               (before after : list (Z * Z * Z * Z * Z)) : bool :=
+  forallb (fun t => match t with (j, s, r, c, _) =>
+             match ist_state j after with
+             | None => false
+             | Some s' => detect_body_exact me inactivity auto_fence e j s r c s'
+             end end) before.
+
+Lemma SR_detect_exact : forall n e j s s', aget j (n_insts n) = Some s -> SR n e j s s' ->
+  detect_body_exact (n_me n) (o_inactivity (n_opts n)) (o_auto_fence (n_opts n)) e j
+                    (icode (is_state s)) (is_remote_cnt s) (is_local_cnt s) (icode (is_state s')) = true.
+Proof.
+  intros n e j s s' Hs H.
+  destruct e as [cnt now orcs|og cnt now|og st dg m insts now orcs|pl|og a ts now
+                |og info now|og now|strat forced now orcs|now orcs|now orcs|m now orcs];
+    try (match goal with |- detect_body_exact ?me ?i ?af ?e ?j ?s ?r ?c ?s' = true =>
+           change (detect_body me i af e j s c s' = true) end;
+         apply SR_detect; [intros _; reflexivity|exact Hs|exact H]).
+  apply SR_local_tick in H. destruct H as [H _]. apply lt_detect in H. exact H.
+Qed.
+
+Theorem detection_exact : forall n e n' outs, WFI n -> step n e = Ok (n', outs) ->
+  c07_detection_exact (n_me n) (o_inactivity (n_opts n)) (o_auto_fence (n_opts n)) e (init_ist n) (init_ist n') = true.
+Proof.
+  intros n e n' outs W H. pose proof (step_LR _ _ _ _ W H) as [[A [B [C D]]] _].
+  destruct W as [ND NI]. unfold c07_detection_exact. apply forallb_init_ist; [exact ND|].
+  intros j s Hs. rewrite ist_state_init. destruct (D _ _ Hs) as [s' [Hs' R]]. rewrite Hs'.
+  eapply SR_detect_exact; eassumption.
+Qed.
+
+(* the two checkers agree on a row whenever the local counter does not go backwards *)
+Lemma detect_body_exact_agrees : forall me inact af e j s r c s',
+  match e with LocalTick cnt _ _ => j = me -> r <= cnt | _ => True end ->
+  detect_body_exact me inact af e j s r c s' = detect_body me inact af e j s c s'.
+Proof.
+  intros me inact af e j s r c s' H. destruct e; try reflexivity.
+  unfold detect_body_exact, detect_body. destruct (j =? me) eqn:E; [|reflexivity].
+  apply Z.eqb_eq in E. specialize (H E). destruct (cnt <? r) eqn:X; [apply Z.ltb_lt in X; lia|reflexivity].
+Qed.
+
 (* ====================================================================== *)
 (* Whole histories                                                         *)
 (* ====================================================================== *)
@@ -1991,6 +2051,16 @@ Proof.
     apply (run_state_WFI _ _ _ (ex_WFI false) R).
   - vm_compute in E. inversion E; subst. vm_compute. reflexivity.
 Qed.
+
+(* the exact checker accepts the very step that c07_detection rejects *)
+Example ex_back_exact :
+  let n := after (ex_node false) (firstn 3 ex_back_hist) in
+  let n' := after (ex_node false) ex_back_hist in
+  c07_detection_exact (n_me n) (o_inactivity (n_opts n)) (o_auto_fence (n_opts n)) (LocalTick 5 1015 ex_orc)
+                      (init_ist n) (init_ist n') = true
+  /\ c07_detection (n_me n) (o_inactivity (n_opts n)) (o_auto_fence (n_opts n)) (LocalTick 5 1015 ex_orc)
+                   (init_ist n) (init_ist n') = false.
+Proof. vm_compute. split; reflexivity. Qed.
 
 Theorem run_c07_needs_tick_sane : exists n evs, WFI n /\ nspec_ok fl_c07 (n, evs, run n evs) = false.
 Proof. exists (ex_node false), ex_back_hist. split; [apply ex_WFI|vm_compute; reflexivity]. Qed.
